@@ -249,7 +249,7 @@ func c42Reader(rt *rapid.T, ctx context.Context, st *c42Store, w blobstore.Blobs
 
 func c42RangesCase(rt *rapid.T, rec *vh.Recorder) {
 	ctx := context.Background()
-	kind := c42PickKind(rt, "backend", 12, 15)
+	kind := c42PickKind(rt, "backend", 12, 6)
 	var g c42GitOpts
 	if kind == c42Git {
 		g = c42DrawGitOpts(rt)
@@ -353,7 +353,7 @@ func c42Dedup(in []string) []string {
 
 func c42ConcatCase(rt *rapid.T, rec *vh.Recorder) {
 	ctx := context.Background()
-	kind := c42PickKind(rt, "backend", 10, 12)
+	kind := c42PickKind(rt, "backend", 10, 6)
 	var g c42GitOpts
 	if kind == c42Git {
 		g = c42DrawGitOpts(rt)
